@@ -63,6 +63,7 @@ type Scenario struct {
 	ArmAt    int               `json:"arm_at"`          // delivery index to crash in (-1: none)
 	ArmN     int               `json:"arm_n"`           // die before the N-th write of that delivery
 	Expect   []string          `json:"expect_heads,omitempty"`
+	Transit  []string          `json:"transit_heads,omitempty"` // heads the armed delivery passed through in the unarmed run
 }
 
 type DeliveryResult struct {
@@ -71,6 +72,9 @@ type DeliveryResult struct {
 	Before string `json:"head_before"`
 	After  string `json:"head_after"`
 	Writes int    `json:"writes"`
+	// Heads are the distinct heads observed at the write hook while the delivery ran (a delivery may
+	// cascade through stored future blocks and even reorganise inside one call)
+	Heads []string `json:"heads,omitempty"`
 }
 
 type RunResult struct {
@@ -411,11 +415,18 @@ func childRun(r *mon.Run, scPath string) {
 	}
 	armed := false
 	writes := 0
+	var heads []string
 	db.VerifWriteHook = func(kind string, key []byte) {
 		if !armed {
 			return
 		}
 		writes++
+		if tb := core.GetBlockChain().TopBlock(); tb != nil {
+			h := tb.Hash.Hex()
+			if len(heads) == 0 || heads[len(heads)-1] != h {
+				heads = append(heads, h)
+			}
+		}
 		if sc.ArmAt >= 0 && writes == sc.ArmN {
 			d, _ := json.Marshal(map[string]interface{}{"delivery": sc.ArmAt, "n": sc.ArmN, "kind": kind, "key": hex.EncodeToString(key)})
 			ioutil.WriteFile("verif-died.json", d, 0644)
@@ -435,12 +446,13 @@ func childRun(r *mon.Run, scPath string) {
 		}
 		r.CaseBegin([]byte(fmt.Sprintf("scenario %d delivery %d %s", sc.ID, i, name)))
 		writes = 0
+		heads = nil
 		armed = sc.ArmAt < 0 || i == sc.ArmAt
 		result := chain.AddBlockOnChain(blk)
 		armed = false
 		log = append(log, name)
 		after := chain.TopBlock().Hash.Hex()
-		res.Deliveries = append(res.Deliveries, DeliveryResult{Name: name, Result: int(result), Before: before, After: after, Writes: writes})
+		res.Deliveries = append(res.Deliveries, DeliveryResult{Name: name, Result: int(result), Before: before, After: after, Writes: writes, Heads: append([]string{}, heads...)})
 		r.Count(fmt.Sprintf("add_result_%d", int(result)), 1)
 		r.Count("deliveries", 1)
 		canon := w.check(fmt.Sprintf("after delivery %d (%s, result %d)", i, name, result), true, ever)
@@ -559,6 +571,11 @@ func childRestart(r *mon.Run, scPath string) {
 				break
 			}
 		}
+		for _, h := range sc.Transit {
+			if x := t.byHash[h]; x != nil {
+				allowed[x.Name] = true
+			}
+		}
 		switch {
 		case head.Name == old.Name:
 			r.Count("crash_head_old", 1)
@@ -603,9 +620,13 @@ func scenarioWitness(sc *Scenario) interface{} {
 
 func genScenario(rng *rand.Rand, id int) *Scenario {
 	sc := &Scenario{ID: id, ArmAt: -1}
+	// every tree hangs below a common base block z at height 1: the fork flags are process-global
+	// (current head height), so only blocks whose parents are at height >= 1 execute under the same
+	// flags in the builder and in a node whose head is elsewhere
+	sc.Nodes = append(sc.Nodes, NodeSpec{Name: "z", Parent: "g", QN: 1, PV: 100, NTx: 1})
 	la := 1 + rng.Intn(4)
 	var a []NodeSpec
-	parent := "g"
+	parent := "z"
 	for i := 1; i <= la; i++ {
 		n := NodeSpec{Name: fmt.Sprintf("a%d", i), Parent: parent, QN: uint64(1 + rng.Intn(4)), PV: int64(100 + rng.Intn(3)*50), NTx: rng.Intn(3), Gap: uint64(rng.Intn(3) / 2)}
 		a = append(a, n)
@@ -613,13 +634,13 @@ func genScenario(rng *rand.Rand, id int) *Scenario {
 	}
 	sc.Nodes = append(sc.Nodes, a...)
 	// total QN along A
-	tq := map[string]uint64{"g": 0}
+	tq := map[string]uint64{"g": 0, "z": 1}
 	for _, n := range a {
 		tq[n.Name] = tq[n.Parent] + n.QN
 	}
 	// competing branch B forking below the A head
 	f := rng.Intn(la) // fork after a_f (0 = genesis)
-	fp := "g"
+	fp := "z"
 	if f > 0 {
 		fp = a[f-1].Name
 	}
@@ -663,7 +684,7 @@ func genScenario(rng *rand.Rand, id int) *Scenario {
 	nsib := 2 + rng.Intn(4)
 	for k := 1; k <= nsib; k++ {
 		ff := rng.Intn(la)
-		pp := "g"
+		pp := "z"
 		if ff > 0 {
 			pp = a[ff-1].Name
 		}
@@ -688,7 +709,9 @@ func genScenario(rng *rand.Rand, id int) *Scenario {
 	// delivery order
 	var order []string
 	for _, n := range real {
-		order = append(order, n.Name)
+		if n.Name != "z" {
+			order = append(order, n.Name)
+		}
 	}
 	shape := []string{"A-then-B", "A-then-B", "A-then-shuffled", "B-first", "shuffled", "orphans-first", "A-then-B-dups"}[rng.Intn(7)]
 	switch shape {
@@ -714,6 +737,11 @@ func genScenario(rng *rand.Rand, id int) *Scenario {
 	case "A-then-B-dups":
 		extra := []string{order[rng.Intn(len(order))], order[rng.Intn(len(order))]}
 		order = append(order, extra...)
+	}
+	if shape == "orphans-first" {
+		order = append(order, "z")
+	} else {
+		order = append([]string{"z"}, order...)
 	}
 	sc.Delivery = order
 	sc.Shape = fmt.Sprintf("A=%d fork@%d B=%d class=%s order=%s", la, f, 1+lb, class, shape)
@@ -906,6 +934,7 @@ func main() {
 		for _, d := range c.c.j.res.Deliveries {
 			sc.Expect = append(sc.Expect, d.After)
 		}
+		sc.Transit = c.c.j.res.Deliveries[c.c.d].Heads
 		spec := filepath.Join(wd, fmt.Sprintf("crash-%d-%d-%d.json", sc.ID, c.c.d, c.n))
 		writeJSON(spec, &sc)
 		dir := filepath.Join(wd, fmt.Sprintf("c-%d-%d-%d", sc.ID, c.c.d, c.n))
